@@ -85,6 +85,10 @@ class Check:
         if got < need:
             raise AnalysisError(f'instance count below the hand-confirmed minimum: {what}: {got} < {need}')
 
+    def unlisted_failures(self) -> List[Any]:
+        known = {k['key'] for k in load_known() if k.get('property') == self.pid}
+        return [o for o in self.obs if not o.info and not o.ok and o.key not in known]
+
     def note(self, key: str, value: Any) -> None:
         self.analysed[key] = value
 
